@@ -21,7 +21,7 @@ func init() {
 			"(d) zoo bitmaps of 1..40 words (quick) / up to 500 (thorough). Both Select32 and Select32R64; index shapes and contents checked; derived rank(select(i)) = i through Rank64. " +
 			"Non-trivial+distinct = hash of bitmaps with at least two 1-bits and one 0.",
 		Assumptions: []string{"only 0 <= i < n (outside, the functions panic by design)"},
-		Flavours:    releaseThenGo126,
+		Flavours:    releaseAnd386,
 		Required: []string{"i=n-1", "i%32=31", "i%32=0", "i%32=1", "answer-word!=checkpoint-word", "next/same-word", "next/later-word", "next/skips-empty-words", "next/absent",
 			"lane=0", "lane=1", "lane=2", "lane=3", "answer-in-high-byte-of-lane", "answer-in-low-byte-of-lane", "bitmap/no-ones", "ones>=65536", "words>=65536", "gap>=2^31/31-bits"},
 		Families: func(c *mon.Config) []mon.Family {
